@@ -58,13 +58,13 @@ func containerView(r container.Reader) string {
 }
 
 var ioTokenSpecs = map[string]TokSpec{
-	"dlg":  {Kind: "dlg", Alg: "ed25519", Opts: map[string]string{"pol": "eq", "nonce": "12", "meta": "k=str-ascii"}},
-	"inv":  {Kind: "inv", Alg: "ed25519", Opts: map[string]string{"args": "k=int1", "nonce": "12", "iat": "whole"}},
-	"dlg3": {Kind: "dlg", Alg: "ed25519", Key: 1, Opts: map[string]string{"nonce": "64", "sub": "other", "cmd": "/a/b"}},
+	"dlg":     {Kind: "dlg", Alg: "ed25519", Opts: map[string]string{"pol": "eq", "nonce": "12", "meta": "k=str-ascii"}},
+	"inv":     {Kind: "inv", Alg: "ed25519", Opts: map[string]string{"args": "k=int1", "nonce": "12", "iat": "whole"}},
+	"dlg3":    {Kind: "dlg", Alg: "ed25519", Key: 1, Opts: map[string]string{"nonce": "64", "sub": "other", "cmd": "/a/b"}},
 	"dlgbig":  {Kind: "dlg", Alg: "ed25519", Opts: map[string]string{"nonce": "64", "meta": "k=str-600"}},
 	"dlghuge": {Kind: "dlg", Alg: "ed25519", Key: 2, Opts: map[string]string{"nonce": "12", "meta": "k=bytes-70k"}},
-	"dlg2": {Kind: "dlg", Alg: "p256", Opts: map[string]string{"nonce": "12", "sub": "other"}},
-	"inv2": {Kind: "inv", Alg: "secp256k1", Opts: map[string]string{"nonce": "12", "iat": "none", "prf": "3"}},
+	"dlg2":    {Kind: "dlg", Alg: "p256", Opts: map[string]string{"nonce": "12", "sub": "other"}},
+	"inv2":    {Kind: "inv", Alg: "secp256k1", Opts: map[string]string{"nonce": "12", "iat": "none", "prf": "3"}},
 }
 
 type sealedTok struct {
@@ -216,28 +216,49 @@ func readerAPIs() []readerAPI {
 			func(r io.Reader) (string, error) { t, c, err := token.FromSealedReader(r); return tokRes(t, &c, err) },
 			func(b []byte) (string, error) { t, c, err := token.FromSealed(b); return tokRes(t, &c, err) }},
 		{"delegation.FromSealedReader", []string{"sealed"}, []string{"dlg"},
-			func(r io.Reader) (string, error) { t, c, err := delegation.FromSealedReader(r); return tokRes(t, &c, err) },
+			func(r io.Reader) (string, error) {
+				t, c, err := delegation.FromSealedReader(r)
+				return tokRes(t, &c, err)
+			},
 			func(b []byte) (string, error) { t, c, err := delegation.FromSealed(b); return tokRes(t, &c, err) }},
 		{"invocation.FromSealedReader", []string{"sealed"}, []string{"inv"},
-			func(r io.Reader) (string, error) { t, c, err := invocation.FromSealedReader(r); return tokRes(t, &c, err) },
+			func(r io.Reader) (string, error) {
+				t, c, err := invocation.FromSealedReader(r)
+				return tokRes(t, &c, err)
+			},
 			func(b []byte) (string, error) { t, c, err := invocation.FromSealed(b); return tokRes(t, &c, err) }},
 		{"token.FromDagCborReader", []string{"sealed"}, []string{"dlg", "inv"},
 			func(r io.Reader) (string, error) { t, err := token.FromDagCborReader(r); return tokRes(t, nil, err) },
 			func(b []byte) (string, error) { t, err := token.FromDagCbor(b); return tokRes(t, nil, err) }},
 		{"delegation.FromDagCborReader", []string{"sealed"}, []string{"dlg"},
-			func(r io.Reader) (string, error) { t, err := delegation.FromDagCborReader(r); return tokRes(t, nil, err) },
+			func(r io.Reader) (string, error) {
+				t, err := delegation.FromDagCborReader(r)
+				return tokRes(t, nil, err)
+			},
 			func(b []byte) (string, error) { t, err := delegation.FromDagCbor(b); return tokRes(t, nil, err) }},
 		{"invocation.DecodeReader(dagcbor)", []string{"sealed"}, []string{"inv"},
-			func(r io.Reader) (string, error) { t, err := invocation.DecodeReader(r, dagcbor.Decode); return tokRes(t, nil, err) },
-			func(b []byte) (string, error) { t, err := invocation.Decode(b, dagcbor.Decode); return tokRes(t, nil, err) }},
+			func(r io.Reader) (string, error) {
+				t, err := invocation.DecodeReader(r, dagcbor.Decode)
+				return tokRes(t, nil, err)
+			},
+			func(b []byte) (string, error) {
+				t, err := invocation.Decode(b, dagcbor.Decode)
+				return tokRes(t, nil, err)
+			}},
 		{"token.FromDagJsonReader", []string{"json"}, []string{"dlg", "inv"},
 			func(r io.Reader) (string, error) { t, err := token.FromDagJsonReader(r); return tokRes(t, nil, err) },
 			func(b []byte) (string, error) { t, err := token.FromDagJson(b); return tokRes(t, nil, err) }},
 		{"delegation.FromDagJsonReader", []string{"json"}, []string{"dlg"},
-			func(r io.Reader) (string, error) { t, err := delegation.FromDagJsonReader(r); return tokRes(t, nil, err) },
+			func(r io.Reader) (string, error) {
+				t, err := delegation.FromDagJsonReader(r)
+				return tokRes(t, nil, err)
+			},
 			func(b []byte) (string, error) { t, err := delegation.FromDagJson(b); return tokRes(t, nil, err) }},
 		{"token.DecodeReader(dagjson)", []string{"json"}, []string{"inv"},
-			func(r io.Reader) (string, error) { t, err := token.DecodeReader(r, dagjson.Decode); return tokRes(t, nil, err) },
+			func(r io.Reader) (string, error) {
+				t, err := token.DecodeReader(r, dagjson.Decode)
+				return tokRes(t, nil, err)
+			},
 			func(b []byte) (string, error) { t, err := token.Decode(b, dagjson.Decode); return tokRes(t, nil, err) }},
 		{"container.FromCborReader", []string{"cbor"}, []string{"ctn"},
 			func(r io.Reader) (string, error) { return ctnRes(container.FromCborReader(r)) },
@@ -298,14 +319,14 @@ func carPrefixExpected(a ioArtefact, cut int) (string, bool) {
 }
 
 type c18ReadCase struct {
-	ArtHex string `json:"artefact_hex,omitempty"` // witnesses carry the artefact bytes (container block order follows Go map iteration)
-	Art    string `json:"artefact"`
-	API    string `json:"api"`
-	Mode   string `json:"mode"`             // chunking | pos-error | pos-eof | env
-	Prefix []int  `json:"prefix,omitempty"` // env: schedule of per-call answers
-	At     int    `json:"at,omitempty"`     // positional fault offset (-1 = all)
-	Chunk  int    `json:"chunk,omitempty"`
-	EOFWithData bool `json:"eof_with_data,omitempty"`
+	ArtHex      string `json:"artefact_hex,omitempty"` // witnesses carry the artefact bytes (container block order follows Go map iteration)
+	Art         string `json:"artefact"`
+	API         string `json:"api"`
+	Mode        string `json:"mode"`             // chunking | pos-error | pos-eof | env
+	Prefix      []int  `json:"prefix,omitempty"` // env: schedule of per-call answers
+	At          int    `json:"at,omitempty"`     // positional fault offset (-1 = all)
+	Chunk       int    `json:"chunk,omitempty"`
+	EOFWithData bool   `json:"eof_with_data,omitempty"`
 }
 
 func (c *c18ReadCase) Weight() int { return len(c.Prefix) }
@@ -590,10 +611,10 @@ func writerAPIs() []writerAPI {
 }
 
 type c18WriteCase struct {
-	API   string `json:"api"`
-	Call  int    `json:"call"` // 0 = fault-free comparison; -1 = every call; k = fail at call k
-	Short bool   `json:"short,omitempty"`
-	Transient bool `json:"transient,omitempty"` // only that call fails, later writes succeed again
+	API       string `json:"api"`
+	Call      int    `json:"call"` // 0 = fault-free comparison; -1 = every call; k = fail at call k
+	Short     bool   `json:"short,omitempty"`
+	Transient bool   `json:"transient,omitempty"` // only that call fails, later writes succeed again
 }
 
 func c18WriteSub() *engine.Sub {
@@ -611,7 +632,9 @@ func c18WriteSub() *engine.Sub {
 	return &engine.Sub{
 		Name: "writers",
 		Rule: "every streaming encoder (ToSealedWriter, ToDagCborWriter, ToDagJsonWriter on a delegation and an invocation; the four container writers on 0, 1 and 3 tokens): fault-free, the sink receives the buffered API's bytes (same token set for multi-token containers) and the reported CID is the content address of the sink bytes; with a write error injected at write call i - sticky (every later write fails too), as a short write, and transient (only that write fails and takes nothing, later writes succeed) - for every i in [1, N] where N is the number of Write calls of the fault-free run (the last one being the final flush), the call returns an error; non-trivial = executions with an injected fault",
-		Bound: func(string) string { return "18 writer APIs x every write call x {sticky error, short write, transient error}" },
+		Bound: func(string) string {
+			return "18 writer APIs x every write call x {sticky error, short write, transient error}"
+		},
 		Setup: setup,
 		Gen: func(tier string, emit func(any) bool) {
 			setup(tier)
